@@ -43,7 +43,7 @@ PROP = dict(
          "declarations with random literals. Non-trivial: the handler ran or the request was answered 422; distinct by hash.",
     exhaustive=True,
     assumptions=COMMON_ASSUME + [
-        "formatted strings (date, date-time, byte, uuid, password) are exercised with the texts of the tables in specs/gen_parambind_tables.py only",
+        "formatted strings (date, date-time, byte, uuid, password and the application-defined sku registered only on the API's registry) are exercised with the texts of the tables in specs/gen_parambind_tables.py only",
         "number literals carry at most 6 (float) / 15 (double) significant digits and exponents within +-30, except listed overflow literals; "
         "longer or tiny literals only have their acceptance and dynamic type checked (FloatRounding)",
         "header field values have no leading/trailing blanks or control bytes (net/http strips / rejects them); path segments are non-empty and not dot segments",
